@@ -16,6 +16,8 @@ from .c06 import skip_matrix
 QUICK_SCALE = 5  # quick budgets below are multiplied by this (kept at about half a minute on 8 processes)
 THOROUGH_SCALE = 15  # thorough budgets below are multiplied by this (about ten minutes on 16 processes)
 
+TERMINATION_IS_PROPERTY = True  # "fit ... terminates", "path() always terminates": the watchdog of the harness reports here
+
 RULE = ("paths of the 5 sparse estimators: alpha in {0, 0.05, 0.5, 5}, alpha_multiplier in and out of range, min_features "
         "in/out of range, keep_threshold in/out, patience / early-stopping settings, batch sizes, computed or precomputed "
         "affinity, dynamic mode; n<=16, d in [2,6], max_iter<=5. compute_val_score (module attribute) is wrapped and "
@@ -310,7 +312,7 @@ def oracle_defaults(case):
 
 
 def subs():
-    return [Sub("deep_path", deep_path_case(), oracle_path, 1, 40, "fine paths of hundreds of steps x hundreds of epochs (weights shrink through 300 orders of magnitude)", shards=False),
+    return [Sub("deep_path", deep_path_case(), oracle_path, 1, 6, "fine paths of hundreds of steps x hundreds of epochs (weights shrink through 300 orders of magnitude)", shards=False),
             Sub("contract_grouped", grouped_path_case(), oracle_path, 300, 6000, "the same contract with multi-feature groups and long paths"),
             Sub("contract", path_case(), oracle_path, 700, 12000, "termination, histories, best weights, restoration"),
             Sub("defaults", path_case(defaults=True), oracle_defaults, 60, 800, "out-of-range arguments == documented defaults")]
